@@ -59,8 +59,7 @@ def main():
             'guard': 'DAVIDHALTER_JEDI_VERIF',
             'enable': 'no source hooks: probes are installed by monkey-patching inside the harness process; the helper '
                       'process is reached through harness/helper_wrapper/python (guarded by DAVIDHALTER_JEDI_VERIF=1)',
-            'baseline_off_cmd': 'cd /repo && /venv/bin/python -m pytest -ra -q -p no:cacheprovider --timeout=900 '
-                                '--continue-on-collection-errors',
+            'baseline_off_cmd': 'tools/baseline.sh',
             'source_commits': [],
             'add_only': True,
         },
